@@ -130,6 +130,16 @@ class RegDriver:
         pre = self.W.pre
         return n[len(pre):] if pre and n.startswith(pre) else n
 
+    def class_of(self, o) -> str:
+        """the zoo class the object is an instance of -- by identity of the class object, not by its name (a class
+        built twice, e.g. by @dataclass(slots=True), has a namesake)"""
+        n = self.class_name(o)
+        try:
+            same = self.W.cls(n) is type(o)
+        except AttributeError:
+            same = False
+        return n if same else "?namesake-of:" + n
+
     def apply(self, ev: dict):
         before = self.fingerprints() if self.check_frame else None
         op = ev["op"]
@@ -289,8 +299,8 @@ class RegDriver:
         for s, rec in objs.items():
             o = live[s]
             c = self.class_name(o)
-            if c != rec["c"]:
-                raise Mismatch("class", f"{s}: {c} expected {rec['c']}")
+            if c != rec["c"] or self.class_of(o) != rec["c"]:
+                raise Mismatch("class", f"{s}: {self.class_of(o)} expected {rec['c']}")
             p = rec["p"] if rec["p"] != [] else {}
             for f in self.W.zi.prop_fields(c):
                 want = self.W.prop_value(c, f, p[f["n"]])
